@@ -147,6 +147,7 @@ class ScriptedServer:
 class Sock:
     def __init__(self, srv: ScriptedServer) -> None:
         self.srv, self.rx, self.n = srv, b"", 0
+        self.closed = 0
 
     def settimeout(self, v: t.Any) -> None:
         pass
@@ -171,12 +172,13 @@ class Sock:
         pass
 
     def close(self) -> None:
-        pass
+        self.closed += 1
 
 
 class Writer:
     def __init__(self, srv: ScriptedServer, reader: asyncio.StreamReader) -> None:
         self.srv, self.reader = srv, reader
+        self.closed = 0
 
     def write(self, d: bytes) -> None:
         out = self.srv.feed(bytes(d))
@@ -189,7 +191,7 @@ class Writer:
         return None
 
     def close(self) -> None:
-        pass
+        self.closed += 1
 
     async def wait_closed(self) -> None:
         await asyncio.sleep(0)
@@ -224,18 +226,22 @@ def execute(prov: dict, script: list[dict], flavour: str, scripted_port: int, bl
         servers.append(s)
         return s
 
+    transports: list = []
+
     def create_connection(addr: tuple, timeout: t.Any = None, *a: t.Any, **k: t.Any) -> Sock:
-        return Sock(mk(addr[1]))
+        transports.append(Sock(mk(addr[1])))
+        return transports[-1]
 
     async def open_connection(host: str, port: int = 0, **k: t.Any):
         r = taps.CountingReader()
-        return r, Writer(mk(port), r)
+        transports.append(Writer(mk(port), r))
+        return r, transports[-1]
 
     o1, o2 = socket.create_connection, asyncio.open_connection
     socket.create_connection, asyncio.open_connection = create_connection, open_connection  # type: ignore
     end, exc = "done", ""
     try:
-        with provider.installed(factory):
+        with provider.installed(factory) as ctx_calls:
             kw = dict(server="dc01", username="u", password="p", auth_protocol="negotiate")
             try:
                 with taps.time_limit(60):
@@ -263,8 +269,13 @@ def execute(prov: dict, script: list[dict], flavour: str, scripted_port: int, bl
     wraps = [e for e in log if e["ev"] == "wrap"]
     if not prov["auth"]:
         steps, wraps = [], []
+    import spnego
+
+    ctx_ok = all(c["hostname"] == "dc01" and c["service"] == "host" and c["protocol"] == "negotiate" and c["username"] == "u"
+                 and (c["context_req"] & int(spnego.ContextReq.dce_style)) for c in ctx_calls)
     return {"sent": sent, "delivered": delivered, "steps": steps, "wrapSign": ("true" if wraps[0]["sign_header"] else "false") if wraps else "none",
-            "end": end, "exc": exc, "nconn_scripted": len(srv)}
+            "end": end, "exc": exc, "nconn_scripted": len(srv), "allClosed": all(t_.closed >= 1 for t_ in transports), "nTransports": len(transports),
+            "ctxReqOK": bool(ctx_ok)}
 
 
 def _behaviours(ctx: Ctx, max_legs: int) -> list[tuple[dict, list[dict], dict]]:
@@ -312,9 +323,14 @@ def run(ctx: Ctx) -> int:
             rows.append({"id": len(rows), "prov": p, "script": script, "fl": flavour, **obs, "spec_pc": st["pc"]})
         ctx.distinct((str(p), str(script)))
     ctx.count(len(rows))
-    slim = [{k: r[k] for k in ("id", "prov", "script", "sent", "delivered", "steps", "wrapSign", "end")} for r in rows]
+    slim = [{k: r[k] for k in ("id", "prov", "script", "sent", "delivered", "steps", "wrapSign", "end", "allClosed", "ctxReqOK")} for r in rows]
     bad, stats = validate(ctx, "TraceBind", "TraceBind.cfg", slim, chunk=ctx.pick(1500, 8000), what="bind")
-    for i, clauses in bad.items():
+    for i, clauses in list(bad.items()):
+        for c in [c for c in clauses if c.startswith("EXT_")]:
+            ctx.note_drift("extended_behaviour:" + c)
+        clauses = [c for c in clauses if not c.startswith("EXT_")]
+        if not clauses:
+            continue
         r = rows[i]
         ctx.violation(f"bind:{clauses[0]}:{'auth' if r['prov']['auth'] else 'noauth'}:{r['end']}", ",".join(clauses),
                       {k: r[k] for k in ("prov", "script", "fl", "sent", "steps", "wrapSign", "end", "exc")},
@@ -346,7 +362,7 @@ def selftest(ctx: Ctx) -> int:
              "sent": [{"type": "bind", "tok": 1, "sign": True, "ctxs": [0, 1]}, {"type": "alter", "tok": 2, "sign": True, "ctxs": [0]},
                       {"type": "request", "tok": -1, "sign": True, "ctxs": [0]}],
              "delivered": 3, "steps": [{"tin": -1, "out": 1, "completeAfter": False, "wasComplete": False},
-                                       {"tin": 1, "out": 2, "completeAfter": True, "wasComplete": False}], "wrapSign": "true", "end": "done"}]
+                                       {"tin": 1, "out": 2, "completeAfter": True, "wasComplete": False}], "wrapSign": "true", "end": "done", "allClosed": True, "ctxReqOK": True}]
     import copy
 
     b1 = copy.deepcopy(good[0]); b1["id"] = 1; b1["sent"][1]["tok"] = 1
@@ -368,7 +384,7 @@ def replay(ctx: Ctx, rec: dict) -> int:
     ks = dc.keyset(RKID, sdref.target_sd(SID), 361)
     blob = blobref.make_blob("SHA256", ks.l2(7, 9), RKID, 361, 7, 9, SID, b"handshake-payload", random.Random(3).randbytes)
     obs = execute(case["prov"], case["script"], case.get("fl", "sync"), 49664 if case["prov"]["auth"] else 135, blob, dc)
-    row = {"id": 0, "prov": case["prov"], "script": case["script"], **{k: obs[k] for k in ("sent", "delivered", "steps", "wrapSign", "end")}}
+    row = {"id": 0, "prov": case["prov"], "script": case["script"], **{k: obs[k] for k in ("sent", "delivered", "steps", "wrapSign", "end", "allClosed", "ctxReqOK")}}
     bad, _ = validate(ctx, "TraceBind", "TraceBind.cfg", [row], what="replay")
     print(row)
     if bad:
